@@ -6,21 +6,11 @@ package c01
 
 import (
 	"fmt"
-	"io"
-	"net"
-	"strings"
-	"time"
-
-	"github.com/enfein/mieru/v3/pkg/appctl/appctlpb"
-	"google.golang.org/protobuf/proto"
 
 	"verif/engine/explore"
 	"verif/engine/runner"
-	"verif/engine/simnet"
-	"verif/engine/vrand"
-	"verif/engine/vsched"
 	"verif/harness/reg"
-	"verif/harness/world"
+	. "verif/harness/xfer"
 )
 
 func init() {
@@ -41,253 +31,6 @@ func init() {
 	})
 }
 
-// ---- traffic patterns ----
-
-func tp(mid, end int32, frag bool, nonce int, le appctlpb.LowEntropyMode, rot appctlpb.LowEntropyMaskRotation) *appctlpb.TrafficPattern {
-	t := &appctlpb.TrafficPattern{}
-	if mid >= 0 {
-		t.Padding = &appctlpb.PaddingPattern{MaxMiddlePaddingLen: proto.Int32(mid), MaxEndPaddingLen: proto.Int32(end)}
-	}
-	if frag {
-		t.TcpFragment = &appctlpb.TCPFragment{Enable: proto.Bool(true), MaxSleepMs: proto.Int32(2)}
-	}
-	switch nonce {
-	case 1:
-		t.Nonce = &appctlpb.NoncePattern{Type: appctlpb.NonceType_NONCE_TYPE_PRINTABLE.Enum(), MinLen: proto.Int32(12), MaxLen: proto.Int32(12), ApplyToAllUDPPacket: proto.Bool(true)}
-	case 2:
-		t.Nonce = &appctlpb.NoncePattern{Type: appctlpb.NonceType_NONCE_TYPE_FIXED.Enum(), CustomHexStrings: []string{"000102030405060708090a0b"}, ApplyToAllUDPPacket: proto.Bool(true)}
-	case 3:
-		t.Nonce = &appctlpb.NoncePattern{Type: appctlpb.NonceType_NONCE_TYPE_RANDOM.Enum()}
-	}
-	if le != 0 {
-		t.LowEntropy = &appctlpb.LowEntropyPattern{Mode: le.Enum(), MaskRotation: rot.Enum()}
-	}
-	return t
-}
-
-type namedTP struct {
-	name string
-	tp   *appctlpb.TrafficPattern
-}
-
-// Patterns is the traffic-pattern alphabet shared by the transport harnesses.
-func Patterns(tier string) []namedTP {
-	le := func(m appctlpb.LowEntropyMode, r int32) *appctlpb.TrafficPattern {
-		return tp(-1, 0, false, 0, m, appctlpb.LowEntropyMaskRotation(r))
-	}
-	ps := []namedTP{
-		{"nil", nil},
-		{"pad0", tp(0, 0, false, 3, 0, 0)},
-		{"pad255", tp(255, 255, false, 0, 0, 0)},
-		{"frag", tp(-1, 0, true, 0, 0, 0)},
-		{"nonce-printable", tp(-1, 0, false, 1, 0, 0)},
-		{"nonce-fixed", tp(-1, 0, false, 2, 0, 0)},
-		{"le32", le(1, 0)},
-		{"le40-R1", le(2, 1)},
-		{"le48-R15", le(3, 15)},
-		{"le56-L1", le(4, 16)},
-		{"le32-L15", le(1, 240)},
-		{"le56-pad255-frag", tp(255, 255, true, 1, 4, 7)},
-	}
-	if tier == "thorough" {
-		for _, m := range []appctlpb.LowEntropyMode{1, 2, 3, 4} {
-			for r := 1; r <= 15; r++ {
-				ps = append(ps, namedTP{fmt.Sprintf("le%d-R%d", m, r), le(m, int32(r))})
-				ps = append(ps, namedTP{fmt.Sprintf("le%d-L%d", m, r), le(m, int32(r*16))})
-			}
-		}
-	}
-	return ps
-}
-
-// ---- scenario ----
-
-type Params struct {
-	CW, SW  []int // client / server write sizes (per session)
-	RB      int   // read buffer size
-	CTP, STP string
-	NoWait  bool
-	NSess   int
-	MaxRead int     // chunking: every network read returns at most this many bytes
-	SplitC  []int64 // chunking: offsets in the client->server stream no read may cross
-	SplitS  []int64
-	FragMax bool // TCP fragmentation draws: take the maximum instead of the seeded value
-	Seed    int64
-}
-
-func (p Params) String() string {
-	return fmt.Sprintf("cw=%v sw=%v rb=%d ctp=%s stp=%s nowait=%v n=%d maxread=%d splitC=%v splitS=%v fragmax=%v seed=%d",
-		p.CW, p.SW, p.RB, p.CTP, p.STP, p.NoWait, p.NSess, p.MaxRead, p.SplitC, p.SplitS, p.FragMax, p.Seed)
-}
-
-func sum(a []int) int {
-	t := 0
-	for _, x := range a {
-		t += x
-	}
-	return t
-}
-
-type verdict struct {
-	viol []explore.Violation
-}
-
-func (v *verdict) add(sig, format string, a ...any) {
-	if len(v.viol) < 3 {
-		v.viol = append(v.viol, explore.Violation{Signature: sig, Message: fmt.Sprintf(format, a...)})
-	}
-}
-
-func findTP(ps []namedTP, name string) *appctlpb.TrafficPattern {
-	for _, p := range ps {
-		if p.name == name {
-			return p.tp
-		}
-	}
-	panic("unknown pattern " + name)
-}
-
-// Exec runs one execution of the scenario under the chooser and judges it.
-func Exec(p Params, pats []namedTP, ctl *explore.Ctl) (explore.Result, *world.Exec) {
-	v := &verdict{}
-	cfg := world.Config{
-		MTU: 1400, ClientTP: findTP(pats, p.CTP), ServerTP: findTP(pats, p.STP), NoWait: p.NoWait,
-		Mux: appctlpb.MultiplexingLevel_MULTIPLEXING_HIGH, Seed: p.Seed, Horizon: 60 * time.Second,
-		C2S: simnet.StreamOpts{MaxRead: p.MaxRead, Splits: p.SplitC}, S2C: simnet.StreamOpts{MaxRead: p.MaxRead, Splits: p.SplitS},
-	}
-	vrand.Hook = func(site string, n int64) (int64, bool) {
-		if strings.HasSuffix(site, "maybePickExistingUnderlay") {
-			return 0, true // always reuse the first active underlay: sessions share one TCP connection
-		}
-		if p.FragMax && strings.HasSuffix(site, "writeWithPossibleFragment") {
-			return n - 1, true
-		}
-		return 0, false
-	}
-	defer func() { vrand.Hook = nil }()
-	completed := 0
-	ex := world.Run(cfg, ctl, func(w *world.World) {
-		var all world.Group
-		// server application
-		all.Go("srv-accept", "server", func() {
-			var sg world.Group
-			for i := 0; i < p.NSess; i++ {
-				c, tag, err := w.Accept()
-				if err != nil {
-					v.add("C01/accept-failed", "server Accept #%d: %v", i, err)
-					return
-				}
-				id := tag - 1000
-				if id < 0 || id >= p.NSess {
-					v.add("C01/wrong-request", "server accepted a request for port %d", tag)
-					return
-				}
-				sg.Go(fmt.Sprintf("srv-w%d", id), "server", func() { writer(v, c, id, 's', p.SW) })
-				sg.Go(fmt.Sprintf("srv-r%d", id), "server", func() {
-					if reader(v, c, id, 'c', sum(p.CW), p.RB) {
-						completed++
-					}
-				})
-			}
-			sg.Wait()
-		})
-		conns := make([]net.Conn, p.NSess)
-		for k := 0; k < p.NSess; k++ {
-			k := k
-			all.Go(fmt.Sprintf("cli%d", k), "client", func() {
-				c, err := w.Dial(1000 + k)
-				if err != nil {
-					v.add("C01/dial-failed", "client Dial #%d: %v", k, err)
-					return
-				}
-				conns[k] = c
-				var cg world.Group
-				cg.Go(fmt.Sprintf("cli-w%d", k), "client", func() { writer(v, c, k, 'c', p.CW) })
-				cg.Go(fmt.Sprintf("cli-r%d", k), "client", func() {
-					if reader(v, c, k, 's', sum(p.SW), p.RB) {
-						completed++
-					}
-				})
-				cg.Wait()
-			})
-		}
-		all.Wait()
-		for _, c := range conns {
-			if c != nil {
-				c.Close()
-			}
-		}
-		w.Shutdown()
-	})
-	for _, e := range ex.W.Errs {
-		v.add("C01/setup", "%s", e)
-	}
-	for _, pn := range ex.Panics {
-		v.add("C01/panic", "panic in mieru goroutine: %s", pn)
-	}
-	if ex.Outcome.Deadlock {
-		v.add("C01/deadlock", "deadlock; alive: %v", vsched.Describe(ex.Outcome.Alive))
-	} else if ex.Outcome.Horizon || ex.Outcome.Aborted {
-		if completed < 2*p.NSess {
-			v.add("C01/stall", "transfer incomplete at the virtual horizon (%d/%d streams complete); alive: %v", completed, 2*p.NSess, vsched.Describe(ex.Outcome.Alive))
-		}
-	}
-	out := "ok"
-	if len(v.viol) > 0 {
-		out = v.viol[0].Signature
-	}
-	out += fmt.Sprintf("/conns=%d", len(ex.W.Net.Streams)/2)
-	return explore.Result{Outcome: out, Violations: v.viol, Steps: ex.Steps}, ex
-}
-
-func writer(v *verdict, c net.Conn, id int, dir byte, sizes []int) {
-	off := 0
-	for _, n := range sizes {
-		m, err := c.Write(world.Pattern(id, dir, off, n))
-		if err != nil {
-			v.add("C01/write-error", "session %d dir %c: Write(%d) at offset %d returned (%d, %v) while the connection was open", id, dir, n, off, m, err)
-			return
-		}
-		if m != n {
-			v.add("C01/short-write", "session %d dir %c: Write(%d) returned %d without error", id, dir, n, m)
-			return
-		}
-		off += n
-	}
-}
-
-// reader reads total bytes of the peer's pattern and reports whether it completed.
-func reader(v *verdict, c net.Conn, id int, dir byte, total, bufSize int) bool {
-	got := 0
-	buf := make([]byte, bufSize)
-	for got < total {
-		m, err := c.Read(buf)
-		if m > 0 {
-			if got+m > total {
-				v.add("C01/extra-bytes", "session %d dir %c: read %d bytes beyond the %d written", id, dir, got+m-total, total)
-				return false
-			}
-			if at, ok := world.CheckPrefix(id, dir, got, buf[:m]); !ok {
-				v.add("C01/mismatch", "session %d dir %c: byte at offset %d differs from what was written (read of %d bytes at offset %d)", id, dir, at, m, got)
-				return false
-			}
-			got += m
-		}
-		if err != nil {
-			if world.IsTimeout(err) {
-				continue
-			}
-			if err == io.EOF {
-				v.add("C01/early-eof", "session %d dir %c: end of stream after %d of %d bytes while both ends were open", id, dir, got, total)
-			} else {
-				v.add("C01/read-error", "session %d dir %c: Read failed after %d of %d bytes: %v", id, dir, got, total, err)
-			}
-			return false
-		}
-	}
-	return true
-}
-
 // ---- units ----
 
 var seqs = [][]int{{1}, {0, 1}, {1024}, {1025}, {1014}, {1015}, {32764}, {32765}, {32768, 1}, {32769}, {70000}, {1, 32768, 1025}}
@@ -300,15 +43,15 @@ func units(tier string) []runner.Unit {
 		i := 0
 		for _, a := range pats {
 			for _, b := range pats {
-				p := Params{CW: seqs[i%len(seqs)], SW: seqs[(i/len(seqs)+i)%len(seqs)], RB: []int{7, 4096, 65536}[i%3], CTP: a.name, STP: b.name, NoWait: i%2 == 1, NSess: 1 + i%2, Seed: int64(i)}
-				if p.RB == 7 && sum(p.CW)+sum(p.SW) > 40000 {
+				p := Params{Prop: "C01", CW: seqs[i%len(seqs)], SW: seqs[(i/len(seqs)+i)%len(seqs)], RB: []int{7, 4096, 65536}[i%3], CTP: a.Name, STP: b.Name, NoWait: i%2 == 1, NSess: 1 + i%2, Seed: int64(i)}
+				if p.RB == 7 && Sum(p.CW)+Sum(p.SW) > 40000 {
 					p.RB = 4096
 				}
 				i++
 				if tier == "quick" && len(pats) > 12 && i%7 != 0 {
 					continue
 				}
-				runOne(u, p, pats, explore.Bound{})
+				RunOne(u, p, pats, explore.Bound{}, nil)
 				if u.Expired() {
 					u.NotExhaustive("budget")
 					return
@@ -322,12 +65,12 @@ func units(tier string) []runner.Unit {
 		for _, a := range seqs {
 			for _, b := range seqs {
 				for _, nw := range []bool{false, true} {
-					p := Params{CW: a, SW: b, RB: []int{4096, 65536, 7}[i%3], CTP: pats[i%12].name, STP: pats[(i/12+i)%12].name, NoWait: nw, NSess: 1, Seed: int64(1000 + i)}
-					if p.RB == 7 && sum(p.CW)+sum(p.SW) > 40000 {
+					p := Params{Prop: "C01", CW: a, SW: b, RB: []int{4096, 65536, 7}[i%3], CTP: pats[i%12].Name, STP: pats[(i/12+i)%12].Name, NoWait: nw, NSess: 1, Seed: int64(1000 + i)}
+					if p.RB == 7 && Sum(p.CW)+Sum(p.SW) > 40000 {
 						p.RB = 4096
 					}
 					i++
-					runOne(u, p, pats, explore.Bound{})
+					RunOne(u, p, pats, explore.Bound{}, nil)
 					if u.Expired() {
 						u.NotExhaustive("budget")
 						return
@@ -345,14 +88,15 @@ func units(tier string) []runner.Unit {
 	for bi, base := range chunkBases {
 		base := base
 		base.Seed = int64(2000 + bi)
+		base.Prop = "C01"
 		us = append(us, runner.Unit{Name: fmt.Sprintf("chunking-%d", bi), Cost: 5, Run: func(u *runner.U) {
 			p := base
 			p.MaxRead = 1
-			runOne(u, p, pats, explore.Bound{})
+			RunOne(u, p, pats, explore.Bound{}, nil)
 			p.MaxRead = 3
-			runOne(u, p, pats, explore.Bound{})
+			RunOne(u, p, pats, explore.Bound{}, nil)
 			// measure stream lengths on the default execution
-			_, ex := Exec(base, pats, explore.NewCtl(nil))
+			_, ex := Exec(base, pats, explore.NewCtl(nil), nil)
 			var lc, ls int
 			for _, t := range ex.W.Net.Streams {
 				if t.ConnID == 0 && t.Dir == "c2s" {
@@ -368,7 +112,7 @@ func units(tier string) []runner.Unit {
 			for off := 1; off < lc && off <= limit; off++ {
 				p := base
 				p.SplitC = []int64{int64(off)}
-				runOne(u, p, pats, explore.Bound{})
+				RunOne(u, p, pats, explore.Bound{}, nil)
 				if u.Expired() {
 					u.NotExhaustive("budget")
 					return
@@ -377,7 +121,7 @@ func units(tier string) []runner.Unit {
 			for off := 1; off < ls && off <= limit; off++ {
 				p := base
 				p.SplitS = []int64{int64(off)}
-				runOne(u, p, pats, explore.Bound{})
+				RunOne(u, p, pats, explore.Bound{}, nil)
 				if u.Expired() {
 					u.NotExhaustive("budget")
 					return
@@ -391,7 +135,7 @@ func units(tier string) []runner.Unit {
 					for b := a + 1; b < 120 && b < lc; b++ {
 						p := base
 						p.SplitC = []int64{int64(a), int64(b)}
-						runOne(u, p, pats, explore.Bound{})
+						RunOne(u, p, pats, explore.Bound{}, nil)
 					}
 					if u.Expired() {
 						u.NotExhaustive("budget")
@@ -411,24 +155,14 @@ func units(tier string) []runner.Unit {
 	for bi, base := range schedBases {
 		base := base
 		base.Seed = int64(3000 + bi)
+		base.Prop = "C01"
 		ds := 1
 		if tier == "thorough" && bi < 2 {
 			ds = 2
 		}
 		us = append(us, runner.Unit{Name: fmt.Sprintf("schedules-%d", bi), Split: true, Run: func(u *runner.U) {
-			runOne(u, base, pats, explore.Bound{Ds: ds})
+			RunOne(u, base, pats, explore.Bound{Ds: ds}, nil)
 		}})
 	}
 	return us
-}
-
-func runOne(u *runner.U, p Params, pats []namedTP, b explore.Bound) {
-	u.Sample(p.String())
-	u.Explore(b, p.String(), func(ctl *explore.Ctl) explore.Result {
-		r, _ := Exec(p, pats, ctl)
-		return r
-	})
-	if b.Ds == 0 && b.De == 0 {
-		u.Distinct(p.String())
-	}
 }
